@@ -62,6 +62,11 @@ HomogeneousKinds(lines, o) ==
   LET r == RefMap(lines, o) IN
   \A k1 \in 1..Len(r), k2 \in 1..Len(r) : \A e1 \in r[k1][2], e2 \in r[k2][2] : e1[1] = e2[1] => e1[2] = e2[2]
 
+\* HDF5 stores lists of NON-EMPTY text only (C01's domain): no converted list holds an empty string
+ListsNonEmpty(lines, o) ==
+  LET r == RefMap(lines, o) IN
+  \A k \in 1..Len(r) : \A e \in r[k][2] : e[2] \in {"l", "p"} => \A q \in 1..Len(e[3]) : e[3][q] # ""
+
 \* obs.parsed : sequence of <<id, sequence of entries>> as returned by MetadataMap.from_file
 Clauses_mapfile(ev) ==
   LET a == ev.args
@@ -94,6 +99,7 @@ Clauses_cli_add_metadata(ev) ==
         \* ... and stores lists only under the reserved hierarchical categories
         \/ (~a.json /\ ~(SeqSet(a.opts.sc) \subseteq {"taxonomy"}))
         \/ (~a.json /\ ~HomogeneousKinds(a.lines, a.opts))
+        \/ (~a.json /\ ~ListsNonEmpty(a.lines, a.opts))
      THEN [C18_out_of_domain |-> TRUE]
      ELSE IF Failed(ev) THEN [C18_add_metadata_command_succeeds |-> FALSE]
      ELSE LET post == ev.post[ev.res] IN
